@@ -426,6 +426,18 @@ func Check(c *Case) (o core.Outcome) {
 		}
 		info := &imagetypes.FrameInfo{Width: uint16(im.W), Height: uint16(im.H), BitsAllocated: uint16(c.BA), BitsStored: uint16(c.BA), HighBit: uint16(c.BA - 1),
 			SamplesPerPixel: uint16(im.C), PlanarConfiguration: uint16(c.Planar), PhotometricInterpretation: pr}
+		// history: a frame with more byte planes goes through the package first, so that anything
+		// the encoder recycles (scratch encoders, header arrays) holds another frame's values
+		{
+			wide := &imagetypes.FrameInfo{Width: 3, Height: 2, BitsAllocated: 32, BitsStored: 32, HighBit: 31, SamplesPerPixel: 3, PlanarConfiguration: 0, PhotometricInterpretation: "RGB"}
+			ws := codec.NewTestPixelData(wide)
+			wb := make([]byte, 3*2*3*4)
+			for i := range wb {
+				wb[i] = byte(i * 37)
+			}
+			_ = ws.AddFrame(wb)
+			_ = rle.NewRLECodec().Encode(ws, codec.NewTestPixelData(wide), nil)
+		}
 		src := codec.NewTestPixelData(info)
 		_ = src.AddFrame(px)
 		dst := codec.NewTestPixelData(info)
